@@ -35,7 +35,7 @@ def fname_call(f, nargs):
 def corrupt(rng, expr, pos):
     """Returns (operator, corrupted text) or None if the operator does not apply to expr."""
     ops = ["drop-close", "extra-open", "unterminated-string", "unknown-function", "arity-minus", "arity-plus", "trailing-garbage",
-           "trailing-paren", "empty", "truncate", "unterminated-name-ref", "index-overflow", "unknown-input-context", "nameless-reference"]
+           "trailing-paren", "empty", "truncate", "unterminated-name-ref", "index-overflow", "unknown-input-context", "nameless-reference", "malformed-literal"]
     if pos == "filter":
         ops += ["filter-with-name", "filter-with-name"]
     if pos == "sort":
@@ -57,6 +57,12 @@ def corrupt(rng, expr, pos):
     if op == "unterminated-name-ref":
         # /name/ without its closing slash, at the very end of the option value
         return op, rng.choice(["/c0", "/c", "/sel", "/a b"])
+    if op == "malformed-literal":
+        # literals in an expression are JSON: near-JSON is not
+        lit = rng.choice(['"\\u+041"', '"\\u-041"', '"\\u 041"', "[1, 2,]", '{"k": 1,}', "[,1]", "[1,,2]", '{"k" 1}', "[1 2]", '{"a":1,"a"}', '"\\x41"', "+1", "tru", "nul",
+                          "[1,]", "{,}", "True", "NULL", "'a'", "[1;2]", '{"a":1;}', "{a:1}", '"\\ud800"', "1e", "--1", "0x10", "1_000", "nan", "Infinity",
+                          '"\\u12"', '{"k":}', "[1,2", '{"a":1', '"\\"'])
+        return op, rng.choice(["(default .zz %s)", "(push [] %s)", "%s", "(? true 1 %s)"]) % lit
     if op == "nameless-reference":
         # `:` / `@` without a name, in front of a separator rather than at the very end of the text
         return op, rng.choice(["(= : 1)", "(default : \"x\")", "(default @ .a)", "(len @)", "(+ 1 :)", "(? true : 1)", "(default .a @ )", "(concat :\t\"x\")",
